@@ -327,7 +327,7 @@ def execute(plan, env):
         res.sample = {"tree_rejected": str(e)[:200]}
         return res
     run = Runner(te, res, tr, env.known, PLAN_OP_BUDGET.get(plan.get("tier"), 10**9))
-    if "cases" not in plan and plan.get("seed_index") == 0:
+    if plan.get("explore") and "cases" not in plan and plan.get("seed_index") == 0:
         # directed cases (known findings are probed by a fixed input, so that they are identified by it)
         for d in DIRECTED:
             dte = get_tree_env(env, d["tree"])
@@ -336,7 +336,7 @@ def execute(plan, env):
                 if not drun.deliver(c["cls"], bytes.fromhex(c["delivered"]), "directed"):
                     break
             if res.violation:
-                res.violation["case"]["tree"] = d["tree"]
+                res.violation["replan"] = {"tree": d["tree"], "cases": [res.violation["case"]]}
                 break
         te = get_tree_env(env, plan["tree"])
         run.te = te
@@ -444,8 +444,6 @@ def shrink(plan, still_fails, budget):
     if res.violation is None or "case" not in res.violation:
         return plan
     case = res.violation["case"]
-    tree = case.pop("tree", None) or plan["tree"]
-    plan = dict(plan, tree=tree)
     best = {"tree": plan["tree"], "cases": [case], "seed_index": plan.get("seed_index"), "run_seed": plan.get("run_seed")}
     if not still_fails(best):
         return plan
